@@ -53,7 +53,7 @@ def main():
     chk.stubs += ["nbdime.config.jupyter_config_path, nbdime.config.os.getcwd, nbdime.config.JSONFileConfigLoader (in-memory)",
                   "jinja2 / jupyter_server / requests import-only stand-ins (no handler code runs)"]
     chk.require_goals(["several-slots", "global-section-set", "foreign-section-set", "ignore-several-sections",
-                       "flag-over-config", "default-valued-flag-over-config", "cwd-also-a-jupyter-dir", "empty-ignore-mapping-next-to-configured-paths"])
+                       "flag-over-config", "default-valued-flag-over-config", "cwd-also-a-jupyter-dir", "empty-ignore-mapping-next-to-configured-paths", "second-build_config-of-the-process"])
     return chk.finish()
 
 
